@@ -10,6 +10,7 @@ macro_rules! g {
         #[kani::proof]
         #[kani::unwind($unw)]
         #[kani::stub(std::fmt::format, $crate::stub_format)]
+        #[kani::stub(std::sync::Arc::drop_slow, $crate::stub_arc_drop_slow)]
         #[kani::stub(<trustfall_core::ir::Type as std::fmt::Display>::fmt, $crate::stub_type_display)]
         pub fn $name() {
             $( $stmt; )+
